@@ -33,6 +33,8 @@ def main():
             for l in out.splitlines():
                 if l.startswith("VIOLATION"):
                     rp = l.split("replay=")[1].split()[0]
+                    if rp.startswith("regress/"):
+                        continue            # caught by the regression tier already
                     dst = os.path.join(HERE, "regress", prop)
                     os.makedirs(dst, exist_ok=True)
                     name = "mutant_" + os.path.basename(patch).replace(".diff", "").replace(".patch", "") + ".json"
